@@ -442,7 +442,8 @@ func (doc *T) derefRequestBody(r RequestBody, refNameResolver RefNameResolver, p
 func (doc *T) derefPaths(paths map[string]*PathItem, refNameResolver RefNameResolver, parentIsExternal bool) {
 	for _, name := range componentNames(paths) {
 		ops := paths[name]
-		pathIsExternal := isExternalRef(ops.Ref, parentIsExternal)
+		// a path item written inline inside something external (a callback of another file) is external too
+		pathIsExternal := parentIsExternal || isExternalRef(ops.Ref, parentIsExternal)
 		// inline full operations
 		ops.Ref = ""
 
